@@ -28,7 +28,8 @@ ASSUMPTIONS = [
 BUDGET = {"quick": 900, "thorough": 3300}
 INF = dtl.INF
 
-TIE_MENU = [(0, 1, 1, 1, 1), (1, 1, 1, 1, 1), (0, 1, 1, 0, 0), (0, 1, 0, 1, 1), (0, 0, 1, 1, 1), (0, 1, INF, 1, 1), (0, 2, 2, 1, 1)]
+TIE_MENU = [(0, 1, 1, 1, 1), (1, 1, 1, 1, 1), (0, 1, 1, 0, 0), (0, 1, 0, 1, 1), (0, 0, 1, 1, 1), (0, 1, INF, 1, 1), (0, 2, 2, 1, 1),
+            (0, 1, 1, 1, 0)]       # last: free segmental losses only (every labelling between required and allowed content ties)
 PLAIN_EXTRA = [(0, 1, 1, 0, 1), (0, 0, 0, 0, 1), (1, 2, 1, 0, 1), (0, 10 ** 10, 10 ** 10 + 3, 1, 1)]
 PLAIN_MENU = [c for c in dict.fromkeys([c[:4] + (1,) for c in TIE_MENU] + PLAIN_EXTRA) if spaces.coherent_plain(c)]
 
@@ -46,7 +47,7 @@ def plan(tier, seed):
         for osh, ssh in spaces.shape_pairs(4, 3):
             out.append({"slice": "plain:P4x3", "family": "plain", "osh": osh, "ssh": ssh, "costs": PLAIN_MENU})
         out += L.split_plan("ordered:O3x2x3", spaces.shape_pairs(3, 2), o3, 150,
-                            {"family": "ordered", "costs": [lab[0], lab[1], lab[4]]})
+                            {"family": "ordered", "costs": [lab[0], lab[1], lab[4], lab[-1]]})
         out += L.split_plan("unordered:U3x3x3", spaces.shape_pairs(3, 3), u3, 150,
                             {"family": "unordered", "costs": [lab[0], lab[4]]})
         out += L.split_plan("unordered:U4x2x2", spaces.shape_pairs(4, 2, min_obj=4), u2, 150,
